@@ -35,7 +35,7 @@ demo_dst = os.path.join(demo_dir, "zz_seeded_demo_test.go")
 res = {"confirmed": False}
 
 def run(cmd, cwd=repo, timeout=1800):
-    p = subprocess.run(cmd, cwd=cwd, env=env, stdout=subprocess.PIPE, stderr=subprocess.STDOUT, text=True, timeout=timeout)
+    p = subprocess.run(cmd, cwd=cwd, env=env, stdout=subprocess.PIPE, stderr=subprocess.STDOUT, text=True, errors="replace", timeout=timeout)
     return p.returncode, p.stdout
 
 try:
@@ -64,7 +64,7 @@ try:
     for p in [pid] + [e for e in extra if e != pid]:
         t0 = time.time()
         e2 = dict(env, VERIF_REPO=repo, VERIF_BUILD=os.path.join(d, "build-" + p))
-        pr = subprocess.run(["/verif/vcheck", "-p", p, "-tier", tier], env=e2, stdout=subprocess.PIPE, stderr=subprocess.STDOUT, text=True)
+        pr = subprocess.run(["/verif/vcheck", "-p", p, "-tier", tier], env=e2, stdout=subprocess.PIPE, stderr=subprocess.STDOUT, text=True, errors="replace")
         viol = [l for l in pr.stdout.splitlines() if l.strip().startswith("violation in")]
         checks[p] = {"exit": pr.returncode, "caught": pr.returncode == 1, "wall_s": round(time.time() - t0, 1),
                      "first_violation": (viol[0].strip()[:400] if viol else "")}
